@@ -228,7 +228,11 @@ impl LruRunner {
                     }
                 }
                 lv.seq += 1;
-                lv.last_use.insert(k, (ts, lv.seq));
+                if visible(cache).map(|va| va.contains(&k)).unwrap_or(false) {
+                    lv.last_use.insert(k, (ts, lv.seq));
+                } else {
+                    lv.last_use.remove(&k);
+                }
                 "ok".to_string()
             }
             "cget" | "cgm" | "cpeek" => {
@@ -254,6 +258,22 @@ impl LruRunner {
                                 if ts > *used + ttl {
                                     mons.push(format!(
                                         "!MON C15 stale-value-returned op={} key={} idle={}ms ttl={}ms",
+                                        name,
+                                        k,
+                                        ts - *used,
+                                        ttl
+                                    ));
+                                }
+                            }
+                        }
+                        if r.is_none() && k < KEYSPACE {
+                            // the ledger drops a key as soon as it is seen to disappear (miss,
+                            // remove, sweep, eviction of a visible key), so a key it still holds
+                            // with a recent use must be served
+                            if let Some((used, _)) = lv.last_use.get(&k) {
+                                if ts <= *used + ttl {
+                                    mons.push(format!(
+                                        "!MON C15 live-value-withheld op={} key={} idle={}ms ttl={}ms",
                                         name,
                                         k,
                                         ts - *used,
